@@ -1,7 +1,7 @@
 (* Proofs/YamlEditExamples.v — concrete witnesses used by Properties/C15.v: the statements fail for the code as it
    was before the repairs, and a non-trivial command sequence on which the hypotheses of the theorems hold. *)
 From Verif Require Import Base.Bytes Model.YamlEdit Proofs.YamlEditBase Proofs.YamlEditProofs Proofs.YamlEditNorm
-  Proofs.YamlEditSeq.
+  Proofs.YamlEditRec Proofs.YamlEditSeq Proofs.YamlEditPrintable.
 Local Open Scope Z_scope.
 
 Definition scalar (tag : string) (st : N) (v : string) : node := Node KScalar tag st v "" "" "" [].
@@ -9,7 +9,28 @@ Definition mapping (c : list node) : node := Node KMap "!!map" 0 "" "" "" "" c.
 Definition sequence (c : list node) : node := Node KSeq "!!seq" 0 "" "" "" "" c.
 
 (* the places as they were: Set does not copy the style nor move line comments, Delete has no guards *)
-Definition old_params : params := mk_params true true true true 0 false false false 0 0.
+Definition old_params : params := mk_params true true true true 0 false false false false false 0 0.
+
+(* the source after the first six repairs and before the seventh: everything in place except that `env rm` calls
+   Delete on the node under "values" (and has no guard of its own for an empty path) *)
+Definition rm_on_values_params : params := mk_params true true true true 4 true true true false false 2 1.
+
+(* values: # c        then  env rm a :  the mapping under "values" is empty and its key still carries the comment;
+     a: 1             yaml.v3 writes  "values: # c"  and  "{}"  on the next line, which does not parse *)
+Definition values_lc_doc : node :=
+  mapping [Node KScalar "!!str" 0 "values" "" "# c" "" []; mapping [key_node "a"; scalar "!!int" 0 "1"]].
+
+Lemma rm_on_values_unprintable :
+  params_ok rm_on_values_params = true /\ wf_root values_lc_doc = true /\ printable values_lc_doc = true /\
+  exists t', run (cli_step rm_on_values_params) [ORm [AKey "a"]] values_lc_doc = Some t' /\ printable t' = false.
+Proof. repeat split; try reflexivity. eexists. split; reflexivity. Qed.
+
+(* the same command with the repair: the comment moves to the (now empty, flow) mapping: "values: {} # c" *)
+Lemma rm_from_root_printable :
+  exists t', run (cli_step (mk_params true true true true 4 true true true true true 2 1)) [ORm [AKey "a"]] values_lc_doc
+             = Some t' /\ printable t' = true /\
+             yget [AKey "values"] t' = GFound (Node KMap "!!map" 32 "" "" "# c" "" []).
+Proof. eexists. repeat split; reflexivity. Qed.
 
 Lemma old_set_keeps_quotes :
   exists n n' new, yset old_params [AKey "a"] new n = Ok n' /\
@@ -51,8 +72,8 @@ Definition ex_statement (pr : params) : Prop :=
 Lemma ex_holds pr : params_ok pr = true -> ex_statement pr.
 Proof.
   intros H. split; [reflexivity|]. split; [repeat constructor|].
-  destruct pr as [cc ck ct cv st lm kl ri ge gm].
-  destruct lm, kl, ri, cc, ck, ct, cv; try discriminate H;
+  destruct pr as [cc ck ct cv st lm kl ri rg rr ge gm].
+  destruct lm, kl, ri, rg, rr, cc, ck, ct, cv; try discriminate H;
     destruct st; try discriminate H; destruct ge; try discriminate H; destruct gm; try discriminate H;
     (eexists; split; [vm_compute; reflexivity|]; repeat split; reflexivity).
 Qed.
